@@ -2,6 +2,30 @@
 #![allow(unused_imports, dead_code)]
 use serde_json::{json, Value};
 
-pub fn dispatch(_cmd: &str, _req: &Value) -> Option<Value> {
-    None
+/// `c02_plsql {pl: <PL as a JSON value>, target?}`: PL (JSON) -> RQ -> SQL.  Lets the check present literals that
+/// no source text denotes (Literal::Integer(i64::MIN): the lexer reads 9223372036854775808 as a float) to
+/// static_eval and to the SQL emitter.
+fn cmd_plsql(req: &Value) -> Value {
+    let o = match crate::options(req) {
+        Ok(o) => o,
+        Err(v) => return v,
+    };
+    let j = match req.get("pl") {
+        Some(v) => v.to_string(),
+        None => return json!({"bad_request": "pl missing"}),
+    };
+    let r = prqlc::json::to_pl(&j)
+        .and_then(prqlc::pl_to_rq)
+        .and_then(|rq| prqlc::rq_to_sql(rq, &o));
+    match r {
+        Ok(sql) => json!({ "ok": sql }),
+        Err(e) => crate::errs(e),
+    }
+}
+
+pub fn dispatch(cmd: &str, req: &Value) -> Option<Value> {
+    match cmd {
+        "c02_plsql" => Some(cmd_plsql(req)),
+        _ => None,
+    }
 }
